@@ -11,7 +11,22 @@ import (
 	"ivgsa/internal/sym"
 )
 
-func init() { register("C16", ruleC16, ruleC16_4) }
+func init() { register("C16", ruleC16, ruleC16_4, ruleC16_5) }
+
+// ruleC16_5: clause (b) - a graphic expressed with the viewBox, all coordinates and the gradient matrices scaled by
+// a power of two gives the same pixels. Over the reals this is scale invariance of what reaches the rasteriser, and
+// that follows from two identities decided elsewhere and evaluated here too: every coordinate handed to the
+// rasteriser is the affine viewBox->rectangle image of its operand (C05.4: homogeneous of degree 0 in viewBox and
+// operand together), and the pixel->gradient matrix is the gradient matrix applied to the pixel mapped back into
+// viewBox space (C15.1: dividing the matrix's linear part by the factor cancels the factor of the map). That a power
+// of two commutes with float32 rounding is arithmetic, not structure, and is not decided.
+func ruleC16_5(c *Ctx) {
+	c.R.Only("C05.4")
+	ruleC05(c)
+	c.R.Only("C15.1")
+	ruleC15(c)
+	c.R.Only()
+}
 
 // ruleC16_4: clause (c) - colours through palette indices, registers and blends resolve to the colour a direct
 // colour would give (the resolution of Color.Resolve, shared with C04.4 / C09.5 / C14.4).
